@@ -10,7 +10,7 @@ import (
 
 // hook H2 of /repo (verif_step_on.go): every guarded read of the decoder counts as one step
 func init() {
-	mq.VerifStep = func(v interface{}, i, n int, errSet bool) { onStep() }
+	mq.VerifStep = func(v interface{}, i, n int, errSet bool) { onStepAt(i, errSet) }
 }
 
 func verifVBIEncode(v uint) []byte { return mq.VerifVBIEncode(v) }
